@@ -203,3 +203,12 @@ pub trait ObservableH<Item, Err, O: HObserver<Item, Err>>: Sized {
     requires observer.hwf(),
     ensures Self::hsubscribed(self, observer, u);
 }
+
+// an observable whose observer argument is only handed on (no bound needed): used for the
+// `actual_subscribe` bodies of operators that subscribe their sources with shared-state handles
+pub trait ObservableAny<Item, Err, O>: Sized {
+  type Unsub;
+  spec fn asubscribed(src: Self, o: O, u: Self::Unsub) -> bool;
+  fn actual_subscribe(self, observer: O) -> (u: Self::Unsub)
+    ensures Self::asubscribed(self, observer, u);
+}
